@@ -392,28 +392,37 @@ def vec_pipeline(prop, tier, seed, work, t0):
     n = 0
     base = dict(MaxDecs=2, SubIds={1, 2}, MaxLen=2, LagThenClosedLosesState=False, InitLens={0}, PreSubs={0})
     pre = dict(InitLens={2}, PreSubs={2}, MaxLen=4)
+    # (spec, constants, mode): "edge" = one behaviour per transition of the reachable graph (shortest prefix),
+    # "tree" = every path of exactly Depth operations (path-dependent implementation state needs this)
     plans = dict(
-        C05=[("SpecStreams", dict(Caps={16}, Depth=5 if quick else 6)), ("SpecTxn", dict(Caps={16}, Depth=5, SubIds={1})),
-             ("SpecStreamsPre", dict(pre, Caps={16}, Depth=4 if quick else 5, InitLens={3})),
-             ("SpecTxnCore", dict(pre, Caps={16}, Depth=7 if quick else 8))],
-        C06=[("SpecStreams", dict(Caps={1, 2}, Depth=5 if quick else 6, MaxLen=2)),
-             ("SpecTxn", dict(Caps={1}, Depth=6 if quick else 7, SubIds={1}, MaxLen=1)),
-             ("SpecStreamsPre", dict(pre, Caps={1, 2}, Depth=4 if quick else 5)),
-             ("SpecTxnCore", dict(pre, Caps={1}, Depth=7 if quick else 8, InitLens={1}))],
-        C07=[("SpecTxn", dict(Caps={1, 16}, Depth=5 if quick else 6, SubIds={1})),
-             ("SpecTxnSmall", dict(pre, Caps={16}, Depth=6 if quick else 7)),
-             ("SpecTxnCore", dict(pre, Caps={16}, Depth=8 if quick else 9)),
-             ("SpecTxnCore", dict(pre, Caps={1}, Depth=7 if quick else 8, InitLens={1}))],
-        C08=[("SpecStreams", dict(Caps={1, 2}, Depth=6 if quick else 7, SubIds={1}, MaxLen=2)),
-             ("SpecStreamsPre", dict(pre, Caps={1, 2}, Depth=4 if quick else 5))],
-        C17=[("SpecMut", dict(Caps={16}, Depth=4 if quick else 5, MaxLen=3, SubIds={1}))],
+        C05=[("SpecStreams", dict(Caps={16}, Depth=5 if quick else 6), "edge"), ("SpecTxn", dict(Caps={16}, Depth=5, SubIds={1}), "edge"),
+             ("SpecStreamsPre", dict(pre, Caps={16}, Depth=4 if quick else 5, InitLens={3}), "edge"),
+             ("SpecTxnCore", dict(pre, Caps={16}, Depth=7 if quick else 8), "edge"),
+             ("SpecTxnCore", dict(pre, Caps={16}, Depth=6 if quick else 7, PreSubs={1}), "tree")],
+        C06=[("SpecStreams", dict(Caps={1, 2}, Depth=5 if quick else 6, MaxLen=2), "edge"),
+             ("SpecTxn", dict(Caps={1}, Depth=6 if quick else 7, SubIds={1}, MaxLen=1), "edge"),
+             ("SpecStreamsPre", dict(pre, Caps={1, 2}, Depth=4 if quick else 5), "edge"),
+             ("SpecTxnCore", dict(pre, Caps={1}, Depth=7 if quick else 8, InitLens={1}), "edge"),
+             ("SpecLag", dict(pre, Caps={1, 2}, Depth=6 if quick else 7, InitLens={1}, PreSubs={2}), "tree")],
+        C07=[("SpecTxn", dict(Caps={1, 16}, Depth=5 if quick else 6, SubIds={1}), "edge"),
+             ("SpecTxnSmall", dict(pre, Caps={16}, Depth=6 if quick else 7), "edge"),
+             ("SpecTxnCore", dict(pre, Caps={16}, Depth=8 if quick else 9), "edge"),
+             ("SpecTxnCore", dict(pre, Caps={1}, Depth=7 if quick else 8, InitLens={1}), "edge"),
+             ("SpecTxnCore", dict(pre, Caps={16}, Depth=6 if quick else 7, PreSubs={2}), "tree")],
+        C08=[("SpecStreams", dict(Caps={1, 2}, Depth=6 if quick else 7, SubIds={1}, MaxLen=2), "edge"),
+             ("SpecStreamsPre", dict(pre, Caps={1, 2}, Depth=4 if quick else 5), "edge"),
+             ("SpecLag", dict(pre, Caps={1, 2, 8}, Depth=6 if quick else 7, InitLens={1}, PreSubs={2}), "tree")],
+        C17=[("SpecMut", dict(Caps={16}, Depth=4 if quick else 5, MaxLen=3, SubIds={1}), "edge")],
     )
-    for j, (spec, over) in enumerate(plans[prop]):
-        c = os.path.join(work, "GenEdge%d.cfg" % j)
-        write_cfg(c, spec=spec, constants=dict(base, **over), view="View", constraints=["Bound"], action_constraints=["Edge"])
-        k, _ = gen_behaviours("GenVec", c, work, beh, "edge", tag="edge%d" % j, workers=12, timeout=3000)
+    for j, (spec, over, mode) in enumerate(plans[prop]):
+        c = os.path.join(work, "Gen%s%d.cfg" % (mode, j))
+        if mode == "edge":
+            write_cfg(c, spec=spec, constants=dict(base, **over), view="View", constraints=["Bound"], action_constraints=["Edge"])
+        else:
+            write_cfg(c, spec=spec, constants=dict(base, **over), constraints=["BoundTree"], invariants=["PrintAtDepth"])
+        k, _ = gen_behaviours("GenVec", c, work, beh, mode, tag="%s%d" % (mode, j), workers=12, timeout=3000)
         n += k
-        log("gen edge %s: %d" % (spec, k))
+        log("gen %s %s: %d" % (mode, spec, k))
     simspec = dict(C05="SpecAll", C06="SpecAll", C07="SpecTxn", C08="SpecAll", C17="SpecMut")[prop]
     simcaps = dict(C05={16, 64}, C06={1, 2, 3, 5}, C07={1, 3, 16}, C08={1, 2, 3, 16}, C17={16})[prop]
     c = os.path.join(work, "GenSim.cfg")
@@ -457,46 +466,55 @@ LIMIT_KINDS = {"head", "tail", "skip"}
 def ad_base(**over):
     d = dict(MaxDecs=1, SubIds={1, 2}, Caps={16}, MaxLen=3, LagThenClosedLosesState=False, Depth=4,
              InitLens={0, 2}, StageKinds=LIMIT_KINDS, Modes={"static", "dyn", "dyninit"}, Params={0, 1, 2, 3},
-             NStages={1}, PipeFlavs={"plain"}, SelfObs={0})
+             NStages={1}, PipeFlavs={"plain"}, SelfObs={0}, CoreSet="lean")
     d.update(over)
     return d
 
 
 def ad_plans(prop, quick):
-    """List of (spec, mode, constants, num) generation plans per property (sizes measured with tools/plan_sizes.py)."""
+    """(spec, mode, constants, num) generation plans per property; sizes measured with tools/plan_sizes.py.
+    mode: "edge" one behaviour per transition (shortest prefix); "tree" every path of exactly Depth operations
+    (needed because adapters keep internal state the generator does not model); "sim" random walks."""
     D = 4 if quick else 5
     both = {"plain", "batched"}
     sim_n = lambda q, t: max(q // 3, 50) if quick else t
+    dyn2 = dict(Modes={"dyninit"}, Params={1, 2}, InitLens={3}, MaxLen=5)
     if prop == "C09":
         return [("GSpec", "edge", ad_base(StageKinds={k}, Depth=D, PipeFlavs={"plain"}, InitLens={2} if quick else {0, 2, 3},
+                                          Modes={"dyn", "dyninit"} if quick else {"static", "dyn", "dyninit"},
                                           Params={0, 1, 3} if quick else {0, 1, 2, 3, 4}), 0) for k in sorted(LIMIT_KINDS)] + [
-            ("GSpec", "edge", ad_base(Depth=D, Caps={1}, InitLens={2}, Modes={"dyninit"}, Params={1, 2}, PipeFlavs=both), 0),
-            ("GSpecTxnSmall", "edge", ad_base(Depth=D + 2, InitLens={2}, Modes={"static"}, Params={1, 2}, MaxLen=4), 0),
+            ("GSpecCore", "tree", ad_base(StageKinds={k}, Depth=D, CoreSet="lean", **dyn2), 0) for k in sorted(LIMIT_KINDS)] + [
+            ("GSpecLimits", "tree", ad_base(Depth=D if quick else D + 1, Modes={"dyninit", "dyn"}, Params={1, 3, 4}, InitLens={2}), 0),
+            ("GSpec", "edge", ad_base(Depth=D, Caps={1}, InitLens={2}, Modes={"dyninit"}, Params={1, 2}, PipeFlavs={"plain"} if quick else both), 0),
+            ("GSpecTxnSmall", "edge", ad_base(Depth=D + 2, InitLens={2}, Modes={"static"}, Params={2} if quick else {1, 2}, MaxLen=4), 0),
             ("GSpecTxn", "sim", ad_base(Depth=40, Caps={1, 2, 16}, InitLens={0, 1, 3, 5}, Params={0, 1, 2, 3, 5, 8}, MaxLen=8,
                                         PipeFlavs=both), sim_n(500, 20000))]
     if prop == "C10":
         K = {"filter", "filter_map"}
         return [("GSpec", "edge", ad_base(StageKinds=K, Depth=D, InitLens={3} if quick else {0, 3}, PipeFlavs=both), 0),
-                ("GSpec", "edge", ad_base(StageKinds=K, Depth=D + 1, Caps={1}, InitLens={2}, MaxLen=2, PipeFlavs=both), 0),
-                ("GSpecTxnSmall", "edge", ad_base(StageKinds=K, Depth=D + 2, InitLens={2}, MaxLen=4, PipeFlavs=both), 0),
+                ("GSpecCore", "tree", ad_base(StageKinds=K, Depth=D, CoreSet="full", InitLens={3}, MaxLen=5, PipeFlavs={"plain"} if quick else both), 0),
+                ("GSpec", "edge", ad_base(StageKinds=K, Depth=D if quick else D + 1, Caps={1}, InitLens={2}, MaxLen=3, PipeFlavs=both), 0),
+                ("GSpecTxnSmall", "edge", ad_base(StageKinds=K, Depth=D + 2, InitLens={2}, MaxLen=4, PipeFlavs={"batched"} if quick else both), 0),
                 ("GSpecTxn", "sim", ad_base(StageKinds=K, Depth=40, Caps={1, 2, 16}, InitLens={0, 1, 3, 5}, MaxLen=8,
                                             PipeFlavs=both), sim_n(500, 20000))]
     if prop == "C11":
         K = {"sort", "sort_by", "sort_by_key"}
-        return [("GSpec", "edge", ad_base(StageKinds=K, Depth=D, InitLens={3} if quick else {0, 3}, MaxLen=4, PipeFlavs=both), 0),
-                ("GSpec", "edge", ad_base(StageKinds=K, Depth=D + 1, Caps={1}, InitLens={2}, MaxLen=2), 0),
+        return [("GSpec", "edge", ad_base(StageKinds=K, Depth=D, InitLens={3} if quick else {0, 3}, MaxLen=4, PipeFlavs={"batched"} if quick else both), 0),
+                ("GSpecCore", "tree", ad_base(StageKinds=K, Depth=D, CoreSet="full", InitLens={3}, MaxLen=5, PipeFlavs={"plain"} if quick else both), 0),
+                ("GSpec", "edge", ad_base(StageKinds=K, Depth=D if quick else D + 1, Caps={1}, InitLens={2}, MaxLen=3), 0),
                 ("GSpecTxnSmall", "edge", ad_base(StageKinds=K, Depth=D + 2, InitLens={3}, MaxLen=5), 0),
                 ("GSpecTxn", "sim", ad_base(StageKinds=K, Depth=40, Caps={1, 2, 16}, InitLens={0, 1, 3, 5, 7}, MaxLen=9,
                                             PipeFlavs=both), sim_n(500, 20000))]
     if prop == "C12":
-        return [("GSpec", "edge", ad_base(StageKinds=ALL_KINDS, NStages={2}, Depth=3 if quick else 4, InitLens={3}, Modes={"dyn", "static"},
-                                          Params={1, 2}, SelfObs={0, 1}, MaxLen=4), 0),
+        return [("GSpecCore", "tree", ad_base(StageKinds=ALL_KINDS, NStages={2}, Depth=3 if quick else 4, InitLens={3}, Modes={"dyn", "static"},
+                                              Params={2} if quick else {1, 2}, SelfObs={0, 1}, MaxLen=5, CoreSet="lean"), 0),
                 ("GSpecTxn", "sim", ad_base(StageKinds=ALL_KINDS, NStages={2, 3}, Depth=30, Caps={2, 16}, InitLens={0, 2, 4, 6},
                                             Params={0, 1, 2, 4}, MaxLen=8, SelfObs={0, 1}, PipeFlavs=both),
                  sim_n(1500, 40000))]
     if prop == "C13":
         fixed = dict(Modes={"static"}, PipeFlavs={"twin", "batched"})
-        return [("GSpecTxnSmall", "edge", ad_base(StageKinds=ALL_KINDS, Depth=D + 2, InitLens={2}, Params={1}, MaxLen=4, Modes={"static"},
+        return [("GSpecTxnSmall", "edge", ad_base(StageKinds={"head", "tail", "skip", "filter", "sort"} if quick else ALL_KINDS, Depth=D + 2,
+                                                  InitLens={0, 2}, Params={1}, MaxLen=4, Modes={"static"},
                                                   PipeFlavs={"twin"} if quick else {"twin", "batched"}), 0),
                 ("GSpecTxn", "sim", ad_base(StageKinds=ALL_KINDS, NStages={1, 2}, Depth=40, Caps={16, 64}, InitLens={0, 2, 5}, Params={0, 1, 3},
                                             MaxLen=8, **fixed), sim_n(800, 30000)),
@@ -504,13 +522,18 @@ def ad_plans(prop, quick):
                                             MaxLen=8, PipeFlavs={"batched"}), sim_n(400, 20000))]
     if prop == "C14":
         return [("GSpec", "edge", ad_base(StageKinds=ALL_KINDS, Depth=D, InitLens={2}, Modes={"dyn"}, Params={1, 3}, PipeFlavs=both), 0),
+                ("GSpecLimits", "tree", ad_base(Depth=D if quick else D + 1, Modes={"dyninit"}, Params={1, 3, 4}, InitLens={2}, PipeFlavs=both), 0),
+                ("GSpecCore", "tree", ad_base(StageKinds=ALL_KINDS - LIMIT_KINDS, Depth=D, CoreSet="lean", InitLens={2}, MaxLen=4), 0),
                 ("GSpecTxn", "sim", ad_base(StageKinds=ALL_KINDS, NStages={1, 2, 3}, Depth=40, Caps={1, 16}, InitLens={0, 2, 5}, Params={0, 1, 3},
                                             MaxLen=8, SelfObs={0, 1}, PipeFlavs=both), sim_n(1000, 30000))]
     if prop == "C15":
         K = {"head", "tail"}
         return [("GSpec", "edge", ad_base(StageKinds=K, Depth=D, Modes={"static"}, InitLens={3} if quick else {0, 2, 3},
-                                          Params={1, 2, 3}, MaxLen=4, PipeFlavs=both), 0),
-                ("GSpecTxnSmall", "edge", ad_base(StageKinds=K, Depth=D + 2, Modes={"static"}, InitLens={3}, Params={1, 2}, MaxLen=5, PipeFlavs={"batched"}), 0),
+                                          Params={1, 2} if quick else {1, 2, 3}, MaxLen=4, PipeFlavs=both), 0),
+                ("GSpecCore", "tree", ad_base(StageKinds=K, Depth=D - 1 if quick else D, CoreSet="full", Modes={"static"}, Params={1, 2, 3},
+                                              InitLens={2, 3}, MaxLen=5, PipeFlavs=both), 0),
+                ("GSpecTxnSmall", "edge", ad_base(StageKinds=K, Depth=D + 2, Modes={"static"}, InitLens={3}, Params={2} if quick else {1, 2}, MaxLen=5,
+                                                  PipeFlavs={"batched"}), 0),
                 ("GSpecTxn", "sim", ad_base(StageKinds=K, Depth=40, Caps={1, 16}, Modes={"static"}, InitLens={0, 2, 5, 8}, Params={0, 1, 2, 3, 5},
                                             MaxLen=10, PipeFlavs=both), sim_n(500, 20000))]
     raise ToolError("no adapters plan for " + prop)
@@ -518,6 +541,8 @@ def ad_plans(prop, quick):
 
 def ad_nontrivial(prop):
     def polls_after_change(b):
+        if isinstance(b, dict):
+            return True
         ops = [o["op"] for o in b[1:]]
         ch = [j for j, o in enumerate(ops) if o in MUT_OPS or o in ("TxnCommit", "Limit")]
         return bool(ch) and "Poll" in ops[ch[0] + 1:]
@@ -558,6 +583,10 @@ AD_RULES = dict(
 
 def ad_sig(v):
     d = v["detail"]
+    if d.get("op") == "Case":
+        cause = "limit-decrease-from-beyond-length" if d.get("d2") else ("limit-change" if d.get("new", -1) >= 0 else (d.get("d") or {}).get("k"))
+        return dict(layer="adapters", clause=v["clause"], stage_kind=d.get("kind"), stage_mode="dyninit", stage_family=d.get("kind"),
+                    cause=cause, one_step=True)
     stage = d.get("stage", 0) or 0
     chain = d.get("chain") or (d.get("pipes") or [{}])[(d.get("pipe") or 1) - 1].get("chain", [])
     st = chain[stage - 1] if 1 <= stage <= len(chain) else {}
@@ -589,6 +618,41 @@ def ad_validate(trace, work):
     return validate("TraceAdapters", c, trace, work)
 
 
+def algo_collect(prop, tier, seed, work, beh_path, offset):
+    """One-step cases of AdapterAlgo.tla: model-checked (ASSUMEs of MCAlgo) and run on the real adapters."""
+    quick = tier == "quick"
+    consts = dict(MaxN=4 if quick else 5, MaxP=5 if quick else 7, TailLimitDecreaseUsesOldLimit=True)
+    cfg = os.path.join(work, "MCAlgo.cfg")
+    write_cfg(cfg, init="Init", next_="Next", constants=consts)
+    uf = os.path.join(work, "algo-cases.out")
+    r = tlc("MCAlgo", cfg, work, workers=1, timeout=3000, userfile=uf, tag="mcalgo")
+    if not tlc_ok(r, "MCAlgo"):
+        log(r["out"][-4000:])
+        raise ToolError("MCAlgo: the transcription does not satisfy the view rule (or D2 is not characterised exactly): model error")
+    cases = os.path.join(work, "algo-cases.ndjson")
+    n = 0
+    with open(cases, "w") as o:
+        for js in parse_user_lines(uf, "B"):
+            o.write(js + "\n")
+            n += 1
+    os.remove(uf)
+    trace = os.path.join(work, "algo-trace.ndjson")
+    run_harness(["algo", cases, trace])
+    c = os.path.join(work, "TraceAlgo.cfg")
+    write_cfg(c, spec="TraceSpec", constants=dict(TailLimitDecreaseUsesOldLimit=True), postcondition="TraceAccepted")
+    val = validate("TraceAlgo", c, trace, work, nchunks=8)
+    # two runs (plain, batched) per case: map run -> case line
+    for v in val["violations"]:
+        v["run"] = offset + (v["run"] + 1) // 2
+    with open(beh_path, "a") as o, open(cases) as i:
+        for line in i:
+            o.write(line)
+    st = val["stats"] + [0] * 4
+    os.remove(trace)
+    return dict(violations=val["violations"], states=val["states"], n=n, drift=st[2], with_output=st[3],
+                domain="sources of length 0..%d, limits 0..%d, every applicable diff of the 11 kinds, every limit change" % (consts["MaxN"], consts["MaxP"]))
+
+
 def adapters_pipeline(prop, tier, seed, work, t0):
     quick = tier == "quick"
     # ---- 1. design level: the view functions / diff algebra are exercised exhaustively by MCVecOps (C18);
@@ -611,6 +675,11 @@ def adapters_pipeline(prop, tier, seed, work, t0):
             k, r = gen_behaviours("GenAdapters", c, work, beh, "edge", tag="g%d" % j, workers=12, timeout=3000)
             gstates += r["distinct"]
             gtrans += r["generated"]
+        elif mode == "tree":
+            write_cfg(c, spec=spec, constants=consts, constraints=["BoundTree"], invariants=["PrintAtDepth"])
+            k, r = gen_behaviours("GenAdapters", c, work, beh, "tree", tag="g%d" % j, workers=12, timeout=3000)
+            gstates += r["distinct"]
+            gtrans += r["generated"]
         else:
             write_cfg(c, spec=spec, constants=consts, constraints=["BoundTree"], invariants=["PrintAtDepth"])
             k, r = gen_behaviours("GenAdapters", c, work, beh, "sim", num=num, depth=consts["Depth"] + 1, seed=seed + j, tag="g%d" % j,
@@ -620,6 +689,12 @@ def adapters_pipeline(prop, tier, seed, work, t0):
     trace = os.path.join(work, "trace.ndjson")
     hrc = run_harness(["adapters-replay", beh, trace])
     val = ad_validate(trace, work)
+    algo = None
+    if prop in ("C09", "C15"):
+        algo = algo_collect(prop, tier, seed, work, beh, n)
+        val["violations"] += algo["violations"]
+        val["states"] = val.get("states", 0) + algo["states"]
+        n += algo["n"]
     st = val["stats"] + [0] * 14
     extra = dict(trace_events=st[0], calls_followed=st[2], generator_states=gstates, generator_transitions=gtrans,
                  exercised=dict(polls_with_output=st[3], polls_with_lag_reset=st[4], stream_ends_seen=st[6],
@@ -627,6 +702,12 @@ def adapters_pipeline(prop, tier, seed, work, t0):
                                 limit_changes=st[10], bounded_stage_outputs=st[11], batched_outputs=st[12]),
                  harness_hang=(hrc == 3), exhaustive=False,
                  mc_config="source side: Vec.tla (MCVec); adapters are judged on the real code's output by TraceAdapters.tla against Adapters.tla")
+    if algo:
+        extra["algo_one_step"] = dict(cases=algo["n"], exhaustive_domain=algo["domain"], drift_cases=algo["drift"],
+                                      cases_with_output=algo["with_output"],
+                                      note="MCAlgo: every arm of head/tail/skip handle_diff and update_limit/update_count checked against the view "
+                                           "rule on the transcription (AdapterAlgo.tla) for every consistent small state and input; the same cases "
+                                           "run on the real adapters over a scripted input stream (TraceAlgo.tla)")
     mc2 = dict(distinct=mc["distinct"] + gstates, generated=mc["generated"] + gtrans)
     return finish(prop, tier, seed, t0, mc2, n, beh, val, AD_RULES[prop], ad_nontrivial(prop), extra,
                   ["taps between the stages are transparent (they forward every poll and item unchanged)",
@@ -826,7 +907,12 @@ def _lin_classify(events, rej):
             elif op == "Upgrade" and e["ret"]["t"] == "Ok":
                 owners += 1
     if rej.get("e") in ("EndRun", "Stuck"):
-        return ("C03", "stuck-after-last-owner-dropped") if owners <= 0 else ("C02", "stuck-with-update-available")
+        closed = any(e.get("e") == "Stuck" and e.get("closed") for e in events)
+        if owners <= 0:
+            # every owner is gone.  Was the observable really closed?  Then the parked subscriber lost the
+            # wake-up of the close (C02); otherwise nobody closed it (C03).
+            return ("C02", "stuck-although-closed") if closed else ("C03", "stuck-after-last-owner-dropped")
+        return ("C02", "stuck-with-update-available")
     if rej.get("e") == "Hung":
         return ("C04", "deadlock")
     if rej.get("e") == "resp":
